@@ -52,6 +52,11 @@ var Mutants = []Mutant{
 	{ID: "fixed-decl", Props: []string{"C04"}, Rule: "R-FIXED", File: "pkg/parser/parser.go", Find: "\tdecl.Var.T = fixedType(v)\n", Replace: "\tdecl.Var.T = v\n", Expect: "parseTypedDecl#new-Var", Describe: "declared variable keeps a convertible type"},
 	{ID: "accept-no-wrap", Props: []string{"C04", "C02"}, Rule: "R-ACCEPTWRAP", File: "pkg/parser/parser.go", Find: "\t} else {\n\t\tvalue = wrapAny(value, target.Type())\n\t}\n\tp.assertEOL()", Replace: "\t}\n\tp.assertEOL()", Expect: "parseAssignmentStatement#accepts", Describe: "assignment does not wrap the accepted value"},
 	{ID: "maplit-type-go-order", Props: []string{"C04", "C08"}, Rule: "R-MAPRANGE", File: "pkg/parser/expression.go", Find: "\tfor _, key := range mapLit.Order {\n\t\ttypes = append(types, mapLit.Pairs[key].Type())\n\t}", Replace: "\tfor _, n := range mapLit.Pairs {\n\t\ttypes = append(types, n.Type())\n\t}", Expect: "parseMapLiteral#maprange", Describe: "map literal type inferred in Go map order"},
+	{ID: "exprlist-continue-on-error", Props: []string{"C03"}, Rule: "R-PROGRESS", File: "pkg/parser/expression.go", Find: "\t\tn := p.parseExprWSS()\n\t\tif n == nil {\n\t\t\treturn nil // previous error\n\t\t}\n\t\tlist = append(list, n)", Replace: "\t\tn := p.parseExprWSS()\n\t\tif n == nil {\n\t\t\tcontinue // previous error\n\t\t}\n\t\tlist = append(list, n)", Expect: "parseExprList#loop[1]:progress", Describe: "argument list keeps going after an error without consuming anything"},
+	{ID: "arraylit-no-eof-test", Props: []string{"C03"}, Rule: "R-PROGRESS", File: "pkg/parser/expression.go", Find: "\tfor tt != lexer.RBRACKET && tt != lexer.EOF {\n\t\telTok := p.cur", Replace: "\tfor tt != lexer.RBRACKET {\n\t\telTok := p.cur", Expect: "parseArrayLiteral#loop[1]:eof-exit", Describe: "unterminated array literal spins at the end of the input"},
+	{ID: "comment-runs-past-end", Props: []string{"C03"}, Rule: "R-PROGRESS", File: "pkg/lexer/lexer.go", Find: "return r != 0 && r != '\\n' })", Replace: "return r != '\\n' })", Expect: "readWhile#loop[1]:eof-exit", Describe: "a comment on the last line without newline never ends"},
+	{ID: "unknown-func-no-skip", Props: []string{"C03"}, Rule: "R-PROGRESS", File: "pkg/parser/parser.go", Find: "\t\tp.appendError(fmt.Sprintf(\"unknown function %q\", p.cur.Literal))\n\t\tp.advancePastNL()\n\t\treturn nil", Replace: "\t\tp.appendError(fmt.Sprintf(\"unknown function %q\", p.cur.Literal))\n\t\treturn nil", Expect: "#loop[1]:progress", Describe: "an unknown function name is reported for ever"},
+	{ID: "pos-reset-in-statement", Props: []string{"C03"}, Rule: "R-PROGRESS", File: "pkg/parser/parser.go", Find: "\tp.appendError(\"unexpected input \" + p.cur.Format())\n\tp.advancePastNL()\n\treturn nil", Replace: "\tp.appendError(\"unexpected input \" + p.cur.Format())\n\tp.advanceTo(p.pos)\n\tp.advancePastNL()\n\treturn nil", Expect: "parseStatement#reposition", Describe: "the position is reset from inside the statement loop"},
 	// C05 / C06
 	{ID: "break-no-eol", Props: []string{"C05", "C06"}, Rule: "R-EOLSTATE", File: "pkg/parser/parser.go", Find: "\tp.advance() // advance past BREAK token\n\tp.assertEOL()\n", Replace: "\tp.advance() // advance past BREAK token\n", Expect: "parseBreakStatement#skip", Describe: "text after break is skipped"},
 	{ID: "if-end-no-eol", Props: []string{"C05", "C06"}, Rule: "R-EOLSTATE", File: "pkg/parser/parser.go", Find: "\tp.assertEnd()\n\tp.advance()\n\tp.assertEOL()\n\tp.recordComment(ifStmt)", Replace: "\tp.assertEnd()\n\tp.advance()\n\tp.recordComment(ifStmt)", Expect: "parseIfStatement#skip", Describe: "text after the end of an if is skipped"},
